@@ -485,6 +485,64 @@ fn part(rng: &mut Rng, kind: u64) -> Part {
     }
 }
 
+/// Bases that satisfy only *some* of the criteria of a rigid transform (unit columns, mutually orthogonal
+/// columns, unit rows): a shortcut that inverts "rigid" matrices by transposition is wrong on every one of them
+/// except mode 5.
+fn near_rigid(rng: &mut Rng, mode: u64) -> ([f32; 3], [f32; 3], [f32; 3]) {
+    let ortho = |rng: &mut Rng| -> ([f32; 3], [f32; 3], [f32; 3]) {
+        let a = unit3(rng);
+        let mut x;
+        loop {
+            x = unit3(rng);
+            let c = cross(a, x);
+            if c[0] * c[0] + c[1] * c[1] + c[2] * c[2] > 0.05 {
+                break;
+            }
+        }
+        let z = norm(cross(a, x));
+        let y = norm(cross(z, a));
+        (a, y, z)
+    };
+    match mode {
+        0 => (unit3(rng), unit3(rng), unit3(rng)), // unit columns, not orthogonal
+        1 => {
+            // exact hexagonal-type bases: unit columns at 53.13 / 60 / 120 degrees
+            let h: [[f32; 3]; 3] = match rng.below(3) {
+                0 => [[1.0, 0.0, 0.0], [0.6, 0.8, 0.0], [0.0, 0.0, 1.0]],
+                1 => [[1.0, 0.0, 0.0], [0.5, 0.75f32.sqrt(), 0.0], [0.0, 0.0, 1.0]],
+                _ => [[1.0, 0.0, 0.0], [-0.5, 0.75f32.sqrt(), 0.0], [0.0, 0.6, 0.8]],
+            };
+            let p = [[0, 1, 2], [0, 2, 1], [1, 0, 2], [1, 2, 0], [2, 0, 1], [2, 1, 0]][rng.below(6) as usize];
+            let q = [[0, 1, 2], [1, 2, 0], [2, 0, 1]][rng.below(3) as usize];
+            let pick = |c: usize| -> [f32; 3] { [h[p[c]][q[0]], h[p[c]][q[1]], h[p[c]][q[2]]] };
+            (pick(0), pick(1), pick(2))
+        }
+        2 => {
+            // orthogonal columns of different lengths (one of them may be exactly 1)
+            let (a, y, z) = ortho(rng);
+            let sc = |v: [f32; 3], s: f32| [v[0] * s, v[1] * s, v[2] * s];
+            let s1 = if rng.bool() { 1.0 } else { nz(rng, 0.3, 3.0) };
+            (sc(a, s1), sc(y, nz(rng, 0.3, 3.0)), sc(z, nz(rng, 0.3, 3.0)))
+        }
+        3 => {
+            // unit rows, columns in general not unit: the transpose of mode 0
+            let (a, b, c) = (unit3(rng), unit3(rng), unit3(rng));
+            ([a[0], b[0], c[0]], [a[1], b[1], c[1]], [a[2], b[2], c[2]])
+        }
+        4 => {
+            // a rotation with one column replaced by another unit vector
+            let (a, y, z) = ortho(rng);
+            let u = unit3(rng);
+            match rng.below(3) {
+                0 => (u, y, z),
+                1 => (a, u, z),
+                _ => (a, y, u),
+            }
+        }
+        _ => ortho(rng), // genuinely orthonormal (possibly a reflection)
+    }
+}
+
 fn probes(rng: &mut Rng, k: usize) -> String {
     let mut s = format!("P {k}");
     for i in 0..k {
@@ -556,8 +614,49 @@ pub fn gen(rng: &mut Rng, tier: Tier, out: &mut Vec<String>) {
         let (c, _) = chain(rng, 6, 1e3);
         out.push(format!("inv {}", c));
     }
-    // small but perfectly conditioned linear parts: the determinant guard of inverse() is absolute
-    // (uniform scale s in [1.8e-3, 8e-3] times rotations: 4x4 condition number about 1/s <= 1e3, det = s^3)
+    // "almost rigid" transforms: only some of {unit columns, orthogonal columns, unit rows} hold; alone, with a
+    // translation before or after, and turned by a rotation
+    for i in 0..(if q { 1200 } else { 40_000 }) {
+        let mode = (i % 6) as u64;
+        let (toks, n) = loop {
+            let (a, b, c) = near_rigid(rng, mode);
+            let mut d = basis_d(a, b, c);
+            let mut parts = vec![format!("B {} {} {}", h3(a), h3(b), h3(c))];
+            match rng.below(4) {
+                0 => {}
+                1 => {
+                    let t = part(rng, 0); // translation applied after
+                    d = d_mul(&t.d, &d);
+                    parts.push(t.toks);
+                }
+                2 => {
+                    let t = part(rng, 0); // translation applied first
+                    d = d_mul(&d, &t.d);
+                    parts.insert(0, t.toks);
+                }
+                _ => {
+                    let kind = 2 + rng.below(3);
+                    let r = part(rng, kind); // rotation after: unit columns stay unit
+                    d = d_mul(&r.d, &d);
+                    parts.push(r.toks);
+                    if rng.bool() {
+                        let t = part(rng, 0);
+                        d = d_mul(&t.d, &d);
+                        parts.push(t.toks);
+                    }
+                }
+            }
+            if d_cond(&d) <= 1e3 {
+                break (parts.join(" "), parts.len());
+            }
+        };
+        out.push(format!("inv {n} {toks}"));
+        if i % 4 == 0 {
+            out.push(format!("chain {n} {toks} {}", probes(rng, 2)));
+        }
+    }
+    // small but perfectly conditioned linear parts (D18: the determinant guard of inverse() used to be absolute;
+    // uniform scale s times rotations: 4x4 condition number about 1/s <= 1e3, det = s^3)
     for _ in 0..(if q { 80 } else { 3000 }) {
         // below eps/4 (refused) or above 4*eps (inverted): the band in between is the guard's rounding zone
         let s = if rng.bool() { rng.f32_in(1.8e-3, 3.0e-3) } else { rng.f32_in(8.0e-3, 2.0e-2) };
